@@ -39,7 +39,7 @@ def check(ctx: Ctx) -> None:
 
     f_lclose = repo.func(f"{GB}.ChannelFactory._local_close")
     with ctx.obligation("C07.a", "error-type") as ob:
-        sites = repo.callsites(f_lclose.qualname)
+        sites = repo.callsites_flat(f_lclose.qualname)
         ob.require(len(sites) >= 5, f"{len(sites)} call sites of _local_close (floor 5)")
         for fi, c in sites:
             e = arg(c, 1, "remoteerror")
@@ -68,7 +68,7 @@ def check(ctx: Ctx) -> None:
             if not ok:
                 ob.violation(fcl, a.ast, "Channel.close stores an error in _remoteerrors without the isinstance(error, RemoteError) guard")
         # every other append to _remoteerrors
-        for fi in repo.funcs.values():
+        for fi in repo.scan_funcs():
             for c in repo.calls_in(fi):
                 if callee_attr(c) == "append" and "_remoteerrors" in unparse(c.func) and fi.short not in ("Channel.close", "ChannelFactory._local_close"):
                     ob.violation(fi, c, "_remoteerrors is appended to outside the two closed-transition implementations")
